@@ -74,7 +74,9 @@ Step ==
          [] e.e = "quiesced" ->
               \* producers are done, the queues had time to drain and no Shutdown was called yet:
               \* every accepted callback must have run
-              /\ viols' = viols \o Flag(\E g \in DOMAIN pend : pend[g] # <<>>, "C02:lost")
+              /\ LET lost == \E g \in DOMAIN pend : \E k \in 1..Len(pend[g]) : pend[g][k][2] = serves IN
+                 viols' = viols \o Flag(lost, "C02:lost")
+                                \o Flag(lost /\ serves > 1, "C03:restart-lost")   \* a restarted service gives the same guarantees
               /\ UNCHANGED <<run, pend, exec, started, refused, serves, rets, nworkers>>
          [] e.e = "endrun" ->
               /\ viols' = viols \o Flag(\E g \in DOMAIN exec : exec[g] # {}, "C03:unfinished")
